@@ -17,7 +17,8 @@ def build_demo(timeout=1500):
     env = dict(os.environ)
     env["CARGO_TARGET_DIR"] = TARGET
     env["CARGO_NET_OFFLINE"] = "true"
-    p = subprocess.run(["cargo", "build", "--release", "--offline", "--quiet", "--example", "lms-demo"], cwd="/repo", env=env,
+    repo = os.environ.get("VERIF_REPO") or os.environ.get("VP_RUN_REPO") or "/repo"
+    p = subprocess.run(["cargo", "build", "--release", "--offline", "--quiet", "--example", "lms-demo"], cwd=repo, env=env,
                        stdout=subprocess.PIPE, stderr=subprocess.STDOUT, timeout=timeout)
     if p.returncode != 0:
         raise ToolError("lms-demo build failed: " + p.stdout.decode(errors="replace")[-2000:])
